@@ -9,6 +9,10 @@
     rejected <err>                       translate_function_extended returned an error (outside the property unless a panic)
     oracle-miss / unparsable             machinery
   second request kind `asm …` (synthetic translation results, harness/src/bin/c06.rs): ok | rejected | panic | asm-mismatch
+    incoherent <clause>                  (only when the verdict would be `ok`) the hypothesis of `asm_refines` fails on the dumped
+                                         translation results: a clause of `Assemble.Coherent` (keys/first/same/exitOut/reqFun),
+                                         or `continuation@<addr>`: the control transfers requested out of an instruction differ
+                                         from what lifting that ONE instruction gives (the `oracle` field)
     asm-mismatch <first difference>      (only when the verdict would be `ok`) the Lean model of the assembly algorithm
                                          (FalconModel/Assemble.lean: `discover` + `assemble` run on the `tr` field, the
                                          translation results falcon's work list uses) does not reproduce the recovered function
@@ -249,16 +253,75 @@ def handleAsm (req ans : String) : String :=
           | _ => "asm-mismatch falcon-panics " ++ ans ++ "\t" ++ note
   | _ => "bad-request\t-"
 
+/-- successor determinism against the single-instruction oracle (restricted by the caller to the units the reference
+    run executes: the oracle also lists single lifts of addresses that are only ever executed as delay slots): for
+    every unit `[a₁ … a_k]` with successors `S`, the transfers requested out of `aᵢ` by the translation results (manual edges aside)
+    must be exactly `aᵢ → aᵢ₊₁` (i < k) and `a_k → s` under `c` for `(s, c) ∈ S`. -/
+def refPcs (oracle : List (Nat × (BTR ⊕ String))) : Nat → Nat → State → List Nat → List Nat
+  | 0, _, _, acc => acc
+  | fuel + 1, pc, σ, acc =>
+    match oracle.lookup pc with
+    | some (.inl r) =>
+      match stepBTR r σ with
+      | .next σ' pc' => refPcs oracle fuel pc' σ' (pc :: acc)
+      | _ => pc :: acc
+    | _ => acc
+
+def continuationProblem (tb : List (Nat × BTR)) (oracle : List (Nat × (BTR ⊕ String))) : Option Nat :=
+  let req := Assemble.reqLinks tb ++ Assemble.reqSuccs tb
+  let known := (Assemble.allInstrs tb).map (·.addr)
+  let sameSet := fun (xs ys : List (Nat × Option Expr)) => xs.all (fun x => ys.contains x) && ys.all (fun y => xs.contains y)
+  oracle.findSome? fun (_, u) =>
+    match u with
+    | .inr _ => none
+    | .inl unit =>
+      let addrs := unit.instrs.map (·.addr)
+      let rec go : List Nat → Option Nat
+        | [] => none
+        | [a] =>
+          if known.contains a ∧ !sameSet ((req.filter (fun q => q.1 == a)).map (·.2)) unit.succs then some a else none
+        | a :: b :: rest =>
+          if known.contains a ∧ !sameSet ((req.filter (fun q => q.1 == a)).map (·.2)) [(b, none)] then some a
+          else go (b :: rest)
+      go addrs
+
+/-- `none` = the hypothesis of `asm_refines` holds on this case -/
+def coherenceCheck (req ans : String) : Option String :=
+  match splitBar req, splitBar ans with
+  | head :: stS :: _, _ :: _ :: _ :: orS :: asmS :: _ =>
+    let hf := head.splitOn " "
+    let manual := parseManual (hf[5]?.getD "m=")
+    let entry := (hf[4]?.bind Sx.parseNat).getD 0
+    let steps := ((hf[6]?.map (fun x => (x.drop 6).toString)).bind String.toNat?).getD 0
+    match parseTr (asmS.drop 3).toString, parseOracle (orS.drop 7).toString, MachState.parse stS with
+    | some tr, some oracle, some ms =>
+      -- the units the reference run executes
+      let pcs := (refPcs oracle (steps + 2) entry ms.toState []).eraseDups
+      let oracle := oracle.filter (fun p => pcs.contains p.1)
+      let tb : List (Nat × BTR) := tr.map (fun (a, r) => (a, r.getD (Assemble.emptyResult a)))
+      match Assemble.coherenceProblems tb manual with
+      | p :: _ => some p
+      | [] =>
+        match continuationProblem tb oracle with
+        | some a => some ("continuation@" ++ Fil.hex a)
+        | none => none
+    | _, _, _ => some "unparsable"
+  | _, _ => none
+
 def handle (line : String) : String :=
   if line.startsWith "asm " then
     match line.splitOn "\t" with
     | [req, ans] => handleAsm req ans
     | _ => "bad-request\t-"
   else
-  -- diagnostic form: `ASM:<request>\t<answer>` runs the assembly comparison alone
+  -- diagnostic forms: `ASM:<request>\t<answer>` runs the assembly comparison alone, `COH:…` the coherence check alone
   if line.startsWith "ASM:" then
     match ((line.drop 4).toString).splitOn "\t" with
     | [req, ans] => (match asmCheck req ans with | none => "asm-ok\t-" | some d => "asm-mismatch " ++ d ++ "\t-")
+    | _ => "bad-request\t-"
+  else if line.startsWith "COH:" then
+    match ((line.drop 4).toString).splitOn "\t" with
+    | [req, ans] => (match coherenceCheck req ans with | none => "coherent\t-" | some d => "incoherent " ++ d ++ "\t-")
     | _ => "bad-request\t-"
   else
   let base := handleBase line
@@ -266,8 +329,11 @@ def handle (line : String) : String :=
     match line.splitOn "\t" with
     | [req, ans] =>
       match asmCheck req ans with
-      | none => base
       | some d => "asm-mismatch " ++ d ++ "\t-"
+      | none =>
+        match coherenceCheck req ans with
+        | some d => "incoherent " ++ d ++ "\t-"
+        | none => base
     | _ => base
   else base
 
